@@ -36,10 +36,16 @@ var witnesses = map[string][]witness{
 		{sql: "SELECT LPAD('ééé', 2, 'x')", want: wantStr("éé")},
 		{sql: "SELECT CHAR_LENGTH(LPAD('a', 3, 'é'))", want: wantInt(3)},
 	},
-	kfLocateBytesCI: {
+	kfLocateBytes: {
 		{sql: "SELECT LOCATE('b', 'éb')", want: wantInt(2)},
-		{sql: "SELECT LOCATE('A', 'ba')", want: wantInt(0)},
 		{sql: "SELECT LOCATE('b', 'éab', 3)", want: wantInt(3)},
+		{sql: "SELECT POSITION('界' IN '世界')", want: wantInt(2)},
+	},
+	kfLocateCase: {
+		// "INSTR(str,substr) … is the same as the two-argument form of LOCATE(), except that the
+		// order of the arguments is reversed": INSTR('ba','A') = 0 under the default collation
+		{sql: "SELECT LOCATE('A', 'ba') - INSTR('ba', 'A')", want: wantInt(0)},
+		{sql: "SELECT LOCATE('A', 'ba')", want: wantInt(0)},
 	},
 	kfLocateNullPos: {
 		{sql: "SELECT LOCATE('a', 'bab', NULL)", want: wantNull},
@@ -56,7 +62,10 @@ var witnesses = map[string][]witness{
 		{sql: "SELECT ABS(-128)", want: wantInt(128)},
 		{setup: []string{"CREATE TABLE t (a TINYINT, b INT)", "INSERT INTO t VALUES (-128, -2147483648)"}, sql: "SELECT ABS(a) FROM t", want: wantInt(128)},
 		{setup: []string{"CREATE TABLE t (a TINYINT, b INT)", "INSERT INTO t VALUES (-128, -2147483648)"}, sql: "SELECT ABS(b) FROM t", want: wantInt(2147483648)},
+	},
+	kfAbsMinBigint: {
 		{sql: "SELECT ABS(-9223372036854775808)", wantErr: true},
+		{setup: []string{"CREATE TABLE t (c BIGINT)", "INSERT INTO t VALUES (-9223372036854775808)"}, sql: "SELECT ABS(c) FROM t", wantErr: true},
 	},
 	kfSignRounds: {
 		{sql: "SELECT SIGN(0.3)", want: wantInt(1)},
